@@ -300,3 +300,17 @@ Proof.
 Qed.
 
 End Q.
+
+(* non-vacuity: the concrete limb parameters satisfy the hypotheses, and concrete evaluations *)
+Example limbs_ok : 0 < 2 ^ 64 /\ 2 ^ 64 * 2 ^ 64 = 2 * 2 ^ 127.
+Proof. split; [reflexivity|reflexivity]. Qed.
+Example ex_checked_mul_edge :
+  option_map (val (2 ^ 127)) (checked_mul256 (2 ^ 64) (2 ^ 127) (of_val (2 ^ 127) (- 2 ^ 128)) (of_val (2 ^ 127) (2 ^ 127)))
+  = Some (- 2 ^ 255) /\
+  checked_mul256 (2 ^ 64) (2 ^ 127) (of_val (2 ^ 127) (2 ^ 128)) (of_val (2 ^ 127) (2 ^ 127)) = None.
+Proof. vm_compute. split; reflexivity. Qed.
+Example ex_div_rem_min :
+  div_rem256 (2 ^ 127) (of_val (2 ^ 127) (- 2 ^ 255)) (of_val (2 ^ 127) (-1)) = inr E_OVERFLOW /\
+  match div_rem256 (2 ^ 127) (of_val (2 ^ 127) (- 2 ^ 255)) (of_val (2 ^ 127) 1) with
+  | inl (q, r) => val (2 ^ 127) q = - 2 ^ 255 /\ val (2 ^ 127) r = 0 | inr _ => False end.
+Proof. vm_compute. split; [reflexivity|split; reflexivity]. Qed.
